@@ -106,6 +106,24 @@ func (p *C12) Generate(seed uint64, run int) *Case {
 	if b.Class != "gen" && b.Class != "text" && r.Chance(1, 4) {
 		p.w.WithDict(r, &b)
 		c.Labels = append(c.Labels, "user-dictionary")
+	} else if (b.Class == "doc" || b.Class == "info") && r.Chance(1, 30) {
+		// a DIRECTORY given as dictionary (the pinned tree refuses it; a tree that
+		// reads every file in it must not depend on the order the OS lists them in)
+		if b.Files == nil {
+			b.Files = map[string]*simrt.FileSpec{}
+		}
+		for i, attrs := range [][]string{{"Perfect1", "Major3", "Perfect5"}, {"Perfect1", "Minor3", "Perfect5"}, {"Perfect1", "Perfect4", "Perfect5"}, {"Perfect1", "Major2"}} {
+			y := "- name: DirChord\n  meta:\n    display: dirc\n  attributes:\n"
+			for _, a := range attrs {
+				y += "    - " + a + "\n"
+			}
+			b.Files[fmt.Sprintf("/sim/dicts/%c%d.yml", "dabc"[i], i)] = &simrt.FileSpec{Data: []byte(y)}
+		}
+		b.Argv = append(b.Argv, "--chord", "/sim/dicts")
+		if b.Class == "doc" {
+			b.Input = append(b.Input, []byte("- chord:\n    degree: \"1\"\n    name: \"dirc\"\n  values:\n    - \"1\"\n")...)
+		}
+		c.Labels = append(c.Labels, "dictionary-directory")
 	} else if b.Class == "doc" && r.Chance(1, 25) {
 		// a dictionary named relatively: it exists beside the input FILE, not in
 		// the working directory (every input path must treat the name alike)
